@@ -17,7 +17,9 @@ type touchRec struct {
 func c05Profile(variant string) func(c *sim.RunCtx) {
 	return func(c *sim.RunCtx) {
 		t := c.T.Plan
-		cfg := drawStoreCfg(t, false, true)
+		// the persistent variant: the same guarantee with the persistent block
+		// list and both syncer routines running (no restart takes place)
+		cfg := drawStoreCfg(t, variant == "persistent", true)
 		cfg.Spare = 6 // allocation never fails (<= 4 clients pin at most one block each)
 		insts := []string{""}
 		switch variant {
@@ -173,6 +175,7 @@ func init() {
 			{Name: "hier", Weight: 3, Fn: c05Profile("hier")},
 			{Name: "mutable", Weight: 2, Fn: c05Profile("mutable")},
 			{Name: "flat-writefaults", Weight: 2, Fn: c05Profile("flat-writefaults")},
+			{Name: "persistent", Weight: 2, Fn: c05Profile("persistent")},
 		},
 		Components: map[string][]string{
 			"real": {"pkg/blobstore/configuration new_blob_access.go (W-config runs: the store is assembled by the unmodified NewBlobAccessFromConfiguration; top-level decorators, metrics wrappers, allocator collectors)", "pkg/blobstore/local: flat/hierarchical blob access, old/current/new map, both growth policies, volatile block list, allocators, hashing index", "pkg/blobstore/buffer"},
